@@ -146,4 +146,71 @@ Section Spec.
               | AIn _ => Skipped :: assemble strict AIdle evs'
               end)
     end.
+
+  (* ---- damage: the computable hypothesis "the checksum detects the damage" *)
+  (* the blocks of a layout as they appear in the stream (no empty trailing block) *)
+  Definition lay_blocks (l : lay) : list (list chunk) :=
+    l_closed l ++ match l_open l with [] => [] | _ :: _ => [l_open l] end.
+
+  Definition chunk_eqb (a b : chunk) : bool :=
+    (c_type a =? c_type b) && beq (c_data a) (c_data b).
+
+  (* the events the parser produced for a block are: the block's original chunks, all of them,
+     or a proper prefix of them followed by one "rest of block dropped" event *)
+  Fixpoint evs_match (evs : list bev) (cs : list chunk) : bool :=
+    match evs, cs with
+    | [], [] => true
+    | [BBad _ _], _ :: _ => true
+    | BChunk c :: evs', c0 :: cs' => chunk_eqb c c0 && evs_match evs' cs'
+    | _, _ => false
+    end.
+
+  Fixpoint forall2b {A B} (f : A -> B -> bool) (a : list A) (b : list B) : bool :=
+    match a, b with
+    | [], [] => true
+    | x :: a', y :: b' => f x y && forall2b f a' b'
+    | _, _ => false
+    end.
+
+  (* no_forgery ck rs d: d has as many blocks as the stream written for rs, and in every block
+     whatever the parser accepts is a run of the original chunks of that block from its start
+     (with the rest reported as dropped).  True for the undamaged stream; for a damaged one it
+     says that no damaged or shifted chunk passes the type/length/checksum tests. *)
+  Definition no_forgery (ck : bool) (rs : list bytes) (d : bytes) : bool :=
+    forall2b (fun cs blk => evs_match (parse_from ck blk) cs)
+             (lay_blocks (layout rs)) (stream_blocks d).
+
+  (* which blocks the chunks of the k-th record lie in *)
+  Fixpoint tag_blocks (i : nat) (bl : list (list chunk)) : list (nat * chunk) :=
+    match bl with
+    | [] => []
+    | cs :: bl' => map (pair i) cs ++ tag_blocks (S i) bl'
+    end.
+
+  (* a record's chunks: a maximal run whose chunks after the first are middle/last chunks *)
+  Fixpoint group_recs {A} (ty : A -> N) (l : list A) : list (list A) :=
+    match l with
+    | [] => []
+    | x :: l' =>
+        match group_recs ty l' with
+        | [] => [[x]]
+        | [] :: gs => [x] :: gs
+        | (y :: g) :: gs =>
+            if is_start_type (ty y) then [x] :: (y :: g) :: gs else (x :: y :: g) :: gs
+        end
+    end.
+
+  Definition rec_blocks (rs : list bytes) (k : nat) : list nat :=
+    map fst (nth k (group_recs (fun tc => c_type (snd tc))
+                               (tag_blocks 0 (lay_blocks (layout rs)))) []).
+
+  (* the records the reader yielded, and a selection of records *)
+  Definition recs_of (l : list outcome) : list bytes :=
+    flat_map (fun o => match o with Rec b => [b] | _ => [] end) l.
+
+  Fixpoint select {A} (keep : list bool) (l : list A) : list A :=
+    match keep, l with
+    | k :: keep', x :: l' => if k then x :: select keep' l' else select keep' l'
+    | _, _ => []
+    end.
 End Spec.
